@@ -873,16 +873,21 @@ class MultipleTableCoordinate(BaseTableCoordinate):
         if isinstance(item, (slice, Integral)):
             item = (item,)
 
-        if not len(item) == self.n_inputs:
+        # The item has one entry per array axis; an unmeshed SkyCoord table has
+        # fewer array axes than world components, and a time table has one.
+        n_array_axes = [getattr(t, "ndim", 1) for t in self._table_coords]
+        if not len(item) == sum(n_array_axes):
             raise ValueError(
-                f"length of the slice ({len(item)}) must match the number of coordinates {self.n_inputs}")
+                f"length of the slice ({len(item)}) must match the number of coordinates {sum(n_array_axes)}")
 
         new_tables = []
         dropped_tables = []
         i = 0
-        for table in self._table_coords:
-            tslice = item[i:i+table.n_inputs]
-            i += table.n_inputs
+        for table, n_axes in zip(self._table_coords, n_array_axes):
+            tslice = item[i:i+n_axes]
+            i += n_axes
+            if n_axes == 1:
+                tslice = tslice[0]
             new_table = table[tslice]
             if new_table.is_scalar():
                 dropped_tables.append(new_table)
